@@ -186,6 +186,8 @@ def c05(obj, kind, case, cfg, rec, rng, ref_obj=None):
         except AssertionError as e:
             if expect_reject is False:
                 rec('C05:transform#post.accepted' + name, False, 'feature %s: rejected although every value must be accepted: %s' % (f, str(e)[:150]), dict(feature=f, frame=zoo.case_literal(dict(case, X=df))['X']))
+            elif expect_reject is True:
+                rec('C05:transform#raises.AssertionError' + name, True, 'refused as expected', dict(feature=f))          # (counted: the refusal is an evaluation of the clause)
             return
         except Exception as e:
             rec('C05:transform#raises.only_AssertionError', False, '%s: transform raised %s: %s' % (name, type(e).__name__, str(e)[:200]), dict(feature=f, frame=zoo.case_literal(dict(case, X=df))['X'])); return
